@@ -51,42 +51,64 @@ pub fn state_after(snapshots: &[State], op: Option<usize>) -> State {
     }
 }
 
-/// Runs the continuation on a recovered log: all outcomes and the final / post-restart state must
-/// match a model seeded with the recovered state.
-pub fn run_continuation(recovered: Recovered, cont: &[SOp]) -> Result<Vec<COp>, (String, Vec<COp>)> {
+pub enum ContinuationError {
+    /// The recovered log behaves differently from a log that never crashed.
+    Diverges(String, Vec<COp>),
+    /// Nothing could be compared (the reference log could not be built / the engine failed).
+    Undecided(String),
+}
+
+/// "Further operations and restarts behave exactly as on a log that never crashed" — differential, model-free: the
+/// continuation is applied in lock-step to the recovered log and to a freshly built log with the same observable
+/// state; every outcome, and the observable state at every restart and at the end, must be identical.
+pub fn run_continuation(recovered: Recovered, cont: &[SOp], reference_dir: &std::path::Path) -> Result<Vec<COp>, ContinuationError> {
+    let policy = recovered.driver.policy;
+    let reference_driver = match crate::recover::build_equivalent(reference_dir, policy, &recovered.state) {
+        Ok(driver) => driver,
+        Err(msg) => return Err(ContinuationError::Undecided(format!("reference log: {msg}"))),
+    };
     let mut exec = Exec::resume(recovered.driver, &recovered.state);
+    let mut reference = Exec::resume(reference_driver, &recovered.state);
     let mut ops: Vec<SOp> = cont.to_vec();
     ops.push(SOp::Restart { policy: None });
     for sop in &ops {
-        let step = match exec.step(sop) {
+        // the model only resolves the generated selectors into concrete arguments
+        let cop = exec.resolve(sop);
+        let step = match exec.step_concrete(cop.clone()) {
             Ok(step) => step,
-            Err(err) => return Err((format!("engine: {err:?}"), exec.cops.clone())),
+            Err(err) => return Err(ContinuationError::Undecided(format!("engine: {err:?}"))),
         };
-        if step.real.outcome != step.expected {
-            return Err((
+        let ref_step = match reference.step_concrete(cop) {
+            Ok(step) => step,
+            Err(err) => return Err(ContinuationError::Undecided(format!("engine (reference): {err:?}"))),
+        };
+        if step.real.outcome != ref_step.real.outcome {
+            return Err(ContinuationError::Diverges(
                 format!(
-                    "continuation op #{} {}: model (seeded with the recovered state) says {:?}, implementation returned {:?}",
-                    step.idx, step.cop.short(), step.expected, step.real.outcome
+                    "continuation op #{} {}: the recovered log returned {:?}, a log that never crashed (same observable state) returned {:?}",
+                    step.idx, step.cop.short(), step.real.outcome, ref_step.real.outcome
                 ),
                 exec.cops.clone(),
             ));
         }
         if matches!(step.cop, COp::Restart { .. }) {
-            match exec.driver.observe() {
-                Ok(observed) => {
-                    if let Some(diff) = diff_states(&exec.model.queues, &observed) {
-                        return Err((
-                            format!("after continuation op #{} (restart): state differs from the model: {diff}", step.idx),
+            match (exec.driver.observe(), reference.driver.observe()) {
+                (Ok(observed), Ok(expected)) => {
+                    if let Some(diff) = diff_states(&expected, &observed) {
+                        return Err(ContinuationError::Diverges(
+                            format!("after continuation op #{} (restart): the recovered log differs from a log that never crashed: {diff}", step.idx),
                             exec.cops.clone(),
                         ));
                     }
                 }
-                Err(msg) => return Err((msg, exec.cops.clone())),
+                (Err(msg), Ok(_)) => return Err(ContinuationError::Diverges(msg, exec.cops.clone())),
+                (_, Err(msg)) => return Err(ContinuationError::Undecided(msg)),
             }
         }
     }
     let cops = exec.cops.clone();
     let _ = exec.driver.close();
+    let _ = reference.driver.close();
     Ok(cops)
 }
 
@@ -105,10 +127,11 @@ impl Property for C02 {
          over that trace: every effect boundary, and inside every write the byte cuts {1,3,6,7,8,len-1}, every frame \
          boundary and header/payload cuts around it, plus generated cuts (all byte cuts when the trace wrote <= 4000 \
          bytes). For each crash point the directory image (effects in program order) is materialised and opened by the \
-         real code. Oracle: open is Ok; the observed state equals the model state after the last completed op, or after \
-         the in-flight op, or — only if the in-flight op is truncate/delete_queue — the previous state with a prefix of \
-         the records that op targets removed from its queue; for a sample of crash points a generated continuation \
-         history + restart is run against a model seeded with the recovered state; if recovery itself wrote or unlinked \
+         real code. Oracle: open is Ok; the observed state equals the state the live log showed (public read API, no model) \
+         after the last completed op, or after the in-flight op, or — only if the in-flight op is truncate/delete_queue — the previous state with a prefix of \
+         the records that op targets removed from its queue; after EVERY recovery a plain second restart must give the same state; for a sample of crash points a \
+         generated continuation history + restart is applied in lock-step to the recovered log and to a freshly built \
+         never-crashed log with the same observable state, and outcomes and states must be identical (differential); if recovery itself wrote or unlinked \
          anything, its own trace is crashed again (depth 2) and must recover the same state. evaluations = crash images \
          opened. non-trivial = crash strictly inside an API call (not at a call boundary); distinct = hash(concrete \
          history, crash point)."
@@ -146,10 +169,11 @@ impl Property for C02 {
     fn run(&self, case: &Case, env: &mut Env) -> Result<(), CaseError> {
         let dir = env.scratch.fresh("c02");
         let mut exec = Exec::new(&dir, case.policy)?;
-        exec.keep_snapshots = true;
+        // model-free snapshots: the state the REAL log shows after each call
+        exec.keep_live = true;
         for sop in &case.ops {
             let step = exec.step(sop)?;
-            exec.check_outcome(&step)?;
+            exec.usable_or_skip(&step)?;
         }
         exec.driver.close()?;
         exec.selfcheck_image(&Image::default())?;
@@ -159,6 +183,7 @@ impl Property for C02 {
         selection.only = parse_crash_point(&case.extra);
         let crash_dir = env.scratch.fresh("c02-crash");
         let crash_dir2 = env.scratch.fresh("c02-crash2");
+        let reference_dir = env.scratch.fresh("c02-reference");
         let history_hash = hash64(&exec.cops);
         let mut continuations_run = 0u32;
         let replaying = selection.only.is_some();
@@ -203,13 +228,13 @@ impl Property for C02 {
                     return Err(exec.failure(format!("{where_}: {msg}"), &signature, extra(json!({}))));
                 }
             };
-            let prev = state_after(&exec.snapshots, ctx.last_completed);
+            let prev = state_after(&exec.live, ctx.last_completed);
             let mut ok = recovered.state == prev;
             let mut matched = "previous";
             if !ok {
                 if let Some(op) = ctx.inflight {
                     if op != usize::MAX {
-                        if recovered.state == exec.snapshots[op] {
+                        if recovered.state == exec.live[op] {
                             ok = true;
                             matched = "in-flight-applied";
                         } else if matches_partial(&prev, &recovered.state, &exec.cops[op]) {
@@ -225,7 +250,7 @@ impl Property for C02 {
                 let diff_next = ctx
                     .inflight
                     .filter(|op| *op != usize::MAX)
-                    .and_then(|op| diff_states(&exec.snapshots[op], &recovered.state))
+                    .and_then(|op| diff_states(&exec.live[op], &recovered.state))
                     .unwrap_or_default();
                 return Err(exec.failure(
                     format!("{where_}: recovered state {} is neither the state of the completed ops ({diff_prev}) nor that with the in-flight op applied ({diff_next})",
@@ -254,12 +279,16 @@ impl Property for C02 {
             if run_cont {
                 continuations_run += 1;
                 env.class("continuation-run");
-                if let Err((msg, cont_cops)) = run_continuation(recovered, &case.cont) {
-                    return Err(exec.failure(
-                        format!("{where_}: recovered log is not fully usable: {msg}"),
-                        "continuation-diverges",
-                        extra(json!({"cont": cont_cops})),
-                    ));
+                match run_continuation(recovered, &case.cont, &reference_dir) {
+                    Ok(_) => {}
+                    Err(ContinuationError::Diverges(msg, cont_cops)) => {
+                        return Err(exec.failure(
+                            format!("{where_}: recovered log is not fully usable: {msg}"),
+                            "continuation-diverges",
+                            extra(json!({"cont": cont_cops})),
+                        ));
+                    }
+                    Err(ContinuationError::Undecided(_)) => env.class("continuation-undecided"),
                 }
             } else {
                 // cheap form of "further restarts behave as on a log that never crashed": a plain second restart of
